@@ -108,6 +108,7 @@ func gen(c *lib.Ctx) {
 		genPure(c)
 		genC03IP(c)
 		genWrapIP(c)
+		genA4Scenario(c)
 		genC03SCION(c)
 	case "c05":
 		genC05IP(c)
